@@ -241,10 +241,11 @@ func (cs *clientStream) RecvMsg(m any) error {
 	mc.AwaitObjs("grpc.RecvMsg", st.objs(), func() bool { return st.ended() || st.srvDone || len(st.s2c) > 0 })
 	mcctx.Acquire(st.ctx)
 	switch {
-	case st.conn.closed:
-		return status.Error(codes.Canceled, "grpc: the client connection is closing")
 	case mcctx.Peek(st.ctx) != nil:
 		return status.FromContextError(mcctx.Peek(st.ctx)).Err()
+	case st.conn.closed:
+		// measured on grpc-go v1.62.1 (conformance/transport, script close-conn)
+		return status.Error(codes.Unavailable, "transport is closing")
 	case st.broken:
 		return status.Error(codes.Unavailable, "error reading from server: EOF")
 	case len(st.s2c) > 0:
